@@ -6,6 +6,7 @@ from ..rules import ranges as rg
 from ..rules import errignored
 from ..rules import minmax
 from ..rules import findend
+from ..rules import maxmin
 
 
 def tu_check(tu):
@@ -16,10 +17,12 @@ def tu_check(tu):
     cross = rg.c_cross_table(tu)
     ei = errignored.analyse_tu(tu)
     fe = findend.c_check(tu)
-    bn["findings"] = bn["findings"] + ei["findings"] + fe["findings"]
+    mx = maxmin.c_check(tu)
+    bn["findings"] = bn["findings"] + ei["findings"] + fe["findings"] + mx["findings"]
     bn["fe"] = fe["n"]
+    bn["mx"] = mx["n"]
     bn["ei"] = ei["stats"]["error_result_sites"]
-    return dict(fe=bn["fe"], ei=bn["ei"], cross={repr(k): v for k, v in cross.items()}, unb={repr(k): v for k, v in unb.items()}, range={repr(k): v for k, v in t.items()}, seek=sa, findings=bn["findings"], bn=bn["n"])
+    return dict(mx=bn["mx"], fe=bn["fe"], ei=bn["ei"], cross={repr(k): v for k, v in cross.items()}, unb={repr(k): v for k, v in unb.items()}, range={repr(k): v for k, v in t.items()}, seek=sa, findings=bn["findings"], bn=bn["n"])
 
 
 def run(tier="quick", seed=0, use_cache=True):
@@ -187,6 +190,7 @@ def run(tier="quick", seed=0, use_cache=True):
     res.floor("results of error-reporting repository functions held in locals (OO)", out["OO"]["ei"], 25)
     res.count("ERR-IGNORED", sum(r["ei"] for r in out.values()))
     res.count("FINDEND-TABLE", sum(r["fe"] for r in out.values()))
+    res.count("C-MINMAX-TABLE", sum(r["mx"] for r in out.values()))
     res.floor("valuations of the tree-level endpoint search (OO)", out["OO"]["fe"], 72)
     res.samples = [{"c_range_table_OO": out["OO"]["range"]}, {"seek_effects_OO": out["OO"]["seek"]},
                    {"python_iter_table": {repr(k): v for k, v in it.items()}},
